@@ -29,7 +29,10 @@ type Nil struct{}
 func (Nil) Canon() string { return "nil" }
 
 // Sym is an opaque term identified by its name.
-type Sym struct{ Name string }
+type Sym struct {
+	Name   string
+	NotNil bool // known to differ from nil (a non-nil error, an allocated pointer)
+}
 
 func (s Sym) Canon() string { return s.Name }
 
@@ -72,7 +75,10 @@ type Obj struct {
 func Bool(b bool) Val     { return Const{constant.MakeBool(b)} }
 func Int(i int64) Val     { return Const{constant.MakeInt64(i)} }
 func Str(s string) Val    { return Const{constant.MakeString(s)} }
-func S(name string) Val   { return Sym{name} }
+func S(name string) Val   { return Sym{Name: name} }
+
+// NN is an opaque term known to be non-nil.
+func NN(name string) Val { return Sym{Name: name, NotNil: true} }
 func IsTrue(v Val) bool   { c, ok := v.(Const); return ok && c.V.Kind() == constant.Bool && constant.BoolVal(c.V) }
 func IsFalse(v Val) bool  { c, ok := v.(Const); return ok && c.V.Kind() == constant.Bool && !constant.BoolVal(c.V) }
 func IsConst(v Val) bool  { _, ok := v.(Const); return ok }
